@@ -202,12 +202,20 @@ def _child(plan, fd_in, fd_out, fd_err, fd_res):
     except HarnessError:
         status = 'harness:entry:' + traceback.format_exc()
     except BaseException as e:
-        # what the interpreter would do with an unhandled exception
-        try:
-            traceback.print_exc()
-        except BaseException:
-            pass
-        status = 'exc:' + type(e).__name__
+        tb = traceback.extract_tb(e.__traceback__)
+        simdir = os.path.dirname(os.path.abspath(__file__))
+        if (tb and os.path.abspath(tb[-1].filename).startswith(simdir)
+                and not isinstance(e, OSError)):
+            # a bug of the simulator itself, not behaviour of YaLafi
+            # (simulated faults are OSError / URLError and are raised on purpose)
+            status = 'harness:sim-exception:' + traceback.format_exc()
+        else:
+            # what the interpreter would do with an unhandled exception
+            try:
+                traceback.print_exc()
+            except BaseException:
+                pass
+            status = 'exc:' + type(e).__name__
     finish(status)
 
 
